@@ -4,9 +4,14 @@ Model of the inbound STUN path of `IceTransport` (`src/transports/ice/mod.rs`): 
 (always answers; learns a peer-reflexive candidate; latching branch; USE-CANDIDATE branch with the
 role / priority rules) and `complete_controlled_inbound_tcp_nomination`.
 
-The model follows the code *as it is*: the request's USERNAME / MESSAGE-INTEGRITY are never looked at.
-They are carried in the abstract input (`Req.authentic`, computed from the bytes by the independent RFC
-reader in `classify`) only so that the property can be stated.  Core Lean only.
+Also modelled: the liveness timestamp `last_received_nanos` (which datagrams refresh it), the state part
+and the keepalive registration of `run_keepalive_tick`, and which socket the handlers publish as the
+selected socket.  Time is nominal (`St.now`, milliseconds, advanced by the environment); `resolve_socket`
+is abstracted to the per-candidate flag `Cand.hasSocket`.
+
+The model follows the code as it is after the `fix:` commits (authentication gate in WebRTC mode; only
+authenticated requests, matched responses and media refresh the liveness timestamp).  The credential check
+is `codeAuth`, a model of `stun_request_authenticated` on the raw datagram.  Core Lean only.
 -/
 import RtcModel.Stun
 import RtcModel.StunRfc
@@ -28,6 +33,7 @@ structure Cand where
   tcp : Bool               -- `transport == "tcp"`
   passive : Bool           -- `tcp_type == Some(TcpType::Passive)`
   priority : Nat
+  hasSocket : Bool := false  -- `resolve_socket` finds a socket for a pair with this local candidate
 deriving DecidableEq, Repr, Inhabited
 
 structure Pair where
@@ -58,6 +64,11 @@ def Sock.prflxTcp : Sock → Bool
 def Sock.localAddr : Sock → Addr
   | .udp a | .sharedUdp a | .tcpListener a | .tcpStream a | .turn a => a
 
+/-- what `selected_socket` holds: a socket found by `resolve_socket` for the pair, or the inbound TCP stream -/
+inductive SelSock where
+  | resolved | stream
+deriving DecidableEq, Repr, Inhabited
+
 structure St where
   role : Role
   state : IceState
@@ -68,6 +79,12 @@ structure St where
   pending : List Bytes               -- keys of `pending_transactions`
   latching : Bool                    -- `config.enable_latching`
   webrtc : Bool                      -- `config.transport_mode == TransportMode::WebRtc`
+  now : Nat := 0                     -- `created_at.elapsed()` in ms (nominal clock, advanced by the environment)
+  lastRx : Nat := 0                  -- `last_received_nanos` (ms)
+  selSock : Option SelSock := none   -- `selected_socket` watch value
+  hasRemoteParams : Bool := false    -- `remote_parameters.is_some()`
+  discThreshold : Nat := 30000       -- `config.ice_disconnect_threshold` (ms)
+  connTimeout : Nat := 120000        -- `config.ice_connection_timeout` (ms)
 deriving DecidableEq, Repr, Inhabited
 
 /-- a decoded STUN request as `handle_stun_request` sees it -/
@@ -120,13 +137,20 @@ def learn (s : St) (sock : Sock) (src : Addr) : St :=
   if s.remotes.any (fun c => c.address = src) then s
   else { s with remotes := s.remotes ++ [prflxCand sock src] }
 
+/-- `publish_selected_socket(inner, pair, Some(sender))`: the inbound TCP stream wins, otherwise whatever
+`resolve_socket` finds for the pair (nothing is published if it finds none) -/
+def publish (s : St) (p : Pair) (sock : Sock) : St :=
+  if sock.isTcpStream then { s with selSock := some .stream }
+  else if p.loc.hasSocket then { s with selSock := some .resolved } else s
+
 /-- `if inner.config.enable_latching { … }` -/
-def latch (s : St) (src : Addr) : St :=
+def latch (s : St) (sock : Sock) (src : Addr) : St :=
   if s.latching then
     match s.selected with
     | some p =>
       if portOf p.rem.address = portOf src ∧ ¬ sameIp p.rem.address src then
-        { s with selected := some { loc := p.loc, rem := { p.rem with address := src } } }
+        let np : Pair := { loc := p.loc, rem := { p.rem with address := src } }
+        publish { s with selected := some np } np sock
       else s
     | none => s
   else s
@@ -146,16 +170,18 @@ def tcpPair (s : St) (sock : Sock) (src : Addr) : Option Pair :=
     | some l, some r => some ⟨l, r⟩
     | _, _ => none                                  -- (only publishes the inbound socket)
 
+/-- pair found: select it, publish the stream, Connected; none: only the inbound stream is published -/
 def withPairConnected (s : St) (p : Option Pair) : St :=
   match p with
-  | some p => { s with selected := some p, state := .connected }
-  | none => s
+  | some p => { s with selected := some p, state := .connected, selSock := some .stream }
+  | none => { s with selSock := some .stream }
 
 /-- `complete_controlled_inbound_tcp_nomination` -/
 def tcpNominate (s : St) (sock : Sock) (src : Addr) : St :=
   if s.role ≠ .controlled then s
   else if ¬ sock.isTcpStream then s
-  else if s.nominated.isSome then s                 -- (only re-publishes the socket)
+  else if s.nominated.isSome then                   -- only re-publishes the socket for the current pair
+    (match s.selected with | some _ => { s with selSock := some .stream } | none => s)
   else { withPairConnected s (tcpPair s sock src) with nominated := some true }
 
 /-- `should_select` -/
@@ -181,36 +207,83 @@ def useCandidate (s : St) (sock : Sock) (src : Addr) : St :=
   else
     match ucPair s sock src with
     | some p =>
-      { s with selected := if shouldSelect s p then some p else s.selected, state := .connected, nominated := some true }
+      let s1 := if shouldSelect s p then publish { s with selected := some p } p sock else s
+      { s1 with state := .connected, nominated := some true }
     | none => { s with nominated := some true }
 
 /-- `handle_stun_request` after the reply and the `if !authenticated { return; }` gate -/
 def handleAuthenticated (s : St) (sock : Sock) (src : Addr) (r : Req) : St :=
   let s1 := learn s sock src
-  let s2 := latch s1 src
+  let s2 := latch s1 sock src
   let s3 := tcpNominate s2 sock src
   if r.useCandidate then useCandidate s3 sock src else s3
 
 /-- `handle_packet`'s request arm + `handle_stun_request`: the reply is sent first, unconditionally;
 `authenticated = transport_mode != WebRtc || stun_request_authenticated(..)` gates everything else -/
 def handleRequest (s : St) (sock : Sock) (src : Addr) (r : Req) : St :=
-  if !s.webrtc || r.accepted then handleAuthenticated s sock src r else s
+  if !s.webrtc || r.accepted then handleAuthenticated { s with lastRx := s.now } sock src r else s
 
 /-- response dispatch: `map.remove(&msg.transaction_id)` -/
 def handleResponse (s : St) (tx : Bytes) : St × Option Bytes :=
-  if tx ∈ s.pending then ({ s with pending := s.pending.filter (· ≠ tx) }, some tx) else (s, none)
+  if tx ∈ s.pending then ({ s with pending := s.pending.filter (· ≠ tx), lastRx := s.now }, some tx) else (s, none)
 
 /-- `handle_packet` -/
 def step (s : St) (sock : Sock) (src : Addr) (i : Inp) : St × Out :=
   match i with
   | .empty => (s, {})
-  | .data => (s, { forwarded := true })
+  | .data => ({ s with lastRx := s.now }, { forwarded := true })
   | .undecodable => (s, {})
   | .indication => (s, {})
   | .request r => (handleRequest s sock src r, { replied := sock.canSend })
   | .response tx _ =>
     let (s', d) := handleResponse s tx
     (s', { delivered := d })
+
+/-! ### `run_keepalive_tick` -/
+
+def tcpSelected (s : St) : Bool :=
+  match s.selected with | some p => p.loc.tcp | none => false
+
+/-- the liveness part: Connected / Disconnected transports in WebRTC mode follow the age of `last_received` -/
+def tickNewState (s : St) : IceState :=
+  if (s.state = .connected ∨ s.state = .disconnected) ∧ s.webrtc then
+    if s.now - s.lastRx > s.connTimeout then .failed
+    else if s.now - s.lastRx > (if tcpSelected s then s.connTimeout - 1000 else s.discThreshold) then .disconnected
+    else .connected
+  else s.state
+
+def tickState (s : St) : St := { s with state := tickNewState s }
+
+/-- which keepalive the tick sends -/
+inductive Keepalive where
+  | none | credentialed | bare
+deriving DecidableEq, Repr
+
+/-- the keepalive part (decided on the state read at the top of the tick): needs a selected pair and a socket -/
+def tickKeepalive (s : St) : Keepalive :=
+  if s.state = .connected ∨ s.state = .disconnected then
+    match s.selected with
+    | some p =>
+      if s.selSock.isSome ∨ p.loc.hasSocket then
+        if s.hasRemoteParams then .credentialed else if !s.webrtc then .bare else .none
+      else .none
+    | none => .none
+  else .none
+
+/-- one `run_keepalive_tick`; `tx` is the transaction id it draws for a credentialed keepalive -/
+def tick (s : St) (tx : Bytes) : St × Keepalive :=
+  ({ tickState s with pending := if tickKeepalive s = .credentialed then s.pending ++ [tx] else s.pending },
+   tickKeepalive s)
+
+/-! ### other consumers of STUN responses -/
+
+/-- `IceGatherer::probe_stun` (server-reflexive gathering): what it takes from the datagram it received for
+the request with transaction id `tx` (after the `fix:` that compares id, class and method) -/
+def probeAccept (tx : Bytes) (resp : Bytes) (fromServerIp : Bool := true) : Option Addr :=
+  if !fromServerIp then none else      -- `if from.ip() != addr.ip() { return Ok(None) }`
+  match decode resp with
+  | .ok d => if d.tx = tx ∧ d.cls = .success ∧ d.method = .binding then d.mapped else none
+  | .error _ => none
 
 /-! ### the credential check of the code, on raw bytes -/
 
